@@ -294,6 +294,7 @@ def main(tier, seed, nproc, t0):
                 pl.cleanup(c)
     adversarial(total, seed)
     synthetic_universe(total)
+    exponent_literals(total)
     return fw.finish(PID, tier, seed, total, t0, RULE, min_evals=200,
                      assumptions=["the generator's grammar: ASCII word identifiers without digits, literals without suffix/exponent, <= 15 significant digits, "
                                   "unsuffixed integer literals <= i32::MAX (see DESIGN.md 4.4)",
@@ -362,6 +363,37 @@ def adversarial(total, seed):
             total.violation(sig, "C11 adversarial: dec: units with scales 0.100000000000000002 / 0.100000000000000001 (declared in this order) iterate as %s - not in non-decreasing scale order" % [u["dbg"] for u in ent["units"]],
                             {"module": "c11", "backend": "dec", "kind": "generated", "crate": cdir})
         total.cell("dec", "adversarial", "order_beyond_f64_resolution")
+        pl.cleanup(cdir)
+
+
+def exponent_literals(total):
+    """f64 only: scale literals in exponent notation (the form the astronomical crate uses; `Dec!` does not
+    accept it, so this group is not compiled for Decimal). Includes exponents ending in 0."""
+    units = [("Tiny_A", "ta", "1e-10"), ("Tiny_B", "tb", "2.5e-7"), ("Big_A", "ba", "1e10"), ("Big_B", "bb", "3.25e20"),
+             ("Mid_A", "ma", "6.6845871222684464e-9"), ("Mid_B", "mb", "1.5e3"), ("Neg_Exp", "ne", "4e-30"), ("Pos_Exp", "pe", "7e+2")]
+    d = {"name": "ExpLit", "derived": None, "doc": None, "ref": {"ident": "Exp_Ref", "symbol": "er", "prefix": None, "doc": None},
+         "units": [{"ident": i, "symbol": sy, "prefix": None, "scale": lit, "doc": None} for (i, sy, lit) in units],
+         "attrs": [3, 0, "R", 5, 1, 7, 2, 6, 4]}
+    b = "f64"
+    binp, diags, cdir = pl.build_executor("c11explit", [{"name": "expl", "defs": [(d, None)]}], b)
+    total.evals += 1
+
+    def viol(kind, key, text, case=None):
+        sig = {"backend": b, "kind": kind, "type": key, "group": "exponent_literals", "class": {"kind": kind, "backend": b, "type": key, "group": "exponent_literals"}}
+        total.violation(sig, "C11 %s: %s %s (exponent-notation literals): %s" % (kind, b, key, text), {"module": "c11", "backend": b, "kind": "generated", "crate": cdir})
+    if binp is None:
+        viol("does_not_compile", "expl::ExpLit", "definition with exponent-notation scale literals does not compile: %s" % (diags[:1],))
+        return
+    reg = registry.load(b, {"x_core": binp})
+    ent = reg["expl::ExpLit"]
+    c09.judge_registry(total, b, "expl::ExpLit", ent, decl=declared_for(d, d["attrs"]))
+    judge_attrs(total, b, "expl::ExpLit", ent, d, d["attrs"], viol)
+    sub = c01.work({"backend": b, "ty": "expl::ExpLit", "entry": ent, "bin": binp, "seed": 1, "n": 3})
+    for v in sub.violations:
+        v["text"] = "C11 [exponent-notation literals, C01 oracle] " + v["text"]
+    total.merge(sub)
+    total.cell(b, "exponent_literals", "registry")
+    if not total.violations:
         pl.cleanup(cdir)
 
 
